@@ -32,6 +32,9 @@ def run(ctx):
         unite_rules(ctx, g, impl, ipath)
     ctx.clauses += ["a clone evolves independently of its original (T8, proved modulo A2)", "histories are sequences: !Sync, nothing borrowed escapes, unite needs &mut (T8)",
                     "find does not change class membership or representatives (T1-style effect check)", "unite links the two roots (T3)"]
+    ctx.clauses.append("the two partition types are sibling implementations: classes() and unite() agree in structure (T4 cross-check)")
+    siblings_agree(ctx, "T4-siblings-agree", M + "Partition::<T>::classes", M + "IntPartition::classes", "classes ~ classes")
+    siblings_agree(ctx, "T4-siblings-agree", M + "PartitionImpl::<T>::unite", M + "IntPartitionImpl::unite", "unite ~ unite")
     st = [s for s in ctx.facts.statics if s.startswith(M)]
     ctx.require(not st, "T8-no-statics", M, "statics", "the module defines no static", "the partitions module defines statics (shared storage between instances): %s" % st)
     for d in ctx.facts.find(M):
